@@ -30,6 +30,7 @@ structure CaseAcc where
   ops     : Array Op := #[]
   impl    : Array String := #[]
   ks      : Array String := #[]     -- the crate's own readiness snapshots (fc-verif hook), one per op
+  ps      : Array String := #[]     -- `Debug` of the real combinator (its PollState table), one per poll
   bad     : Option String := none
   co      : Option Co.Cfg := none
   coVec   : Option Nat := none      -- `Vec::into_co_stream` source over that many items
@@ -159,10 +160,17 @@ def finish (modeArg : String) (a : CaseAcc) : IO Unit := do
             | some (j, m, i) => s!" ksdiv={j} ksmodel={m} ksimpl={i}"
             | none => ""
           s!" eqKS={if ok then 1 else 0} ks={k}/{ms.length}/{a.ks.size}" ++ (if ok then "" else where_)
+      -- internal state the crate shows through `Debug`: the PollState table after every poll
+      let psText : String :=
+        if a.ps.isEmpty || !c.hasPsTable then "" else
+          let ms := c.psTables
+          match firstDiff ms a.ps.toList with
+          | none => s!" eqPS=1 ps={ms.length}"
+          | some (j, m, i) => s!" eqPS=0 psdiv={j} psmodel={m.replace " " ""} psimpl={i.replace " " ""}"
       match firstDiff model impl with
-      | none => IO.println s!"R {a.id} eq=1 len={model.length} {hs}{ksText}"
+      | none => IO.println s!"R {a.id} eq=1 len={model.length} {hs}{ksText}{psText}"
       | some (k, m, i) =>
-        IO.println s!"R {a.id} eq=0 {projEq model impl} {hs}{ksText} div={k} model=[{m}] impl=[{i}]"
+        IO.println s!"R {a.id} eq=0 {projEq model impl} {hs}{ksText}{psText} div={k} model=[{m}] impl=[{i}]"
 
 partial def loop (modeArg : String) (h : IO.FS.Stream) (a : CaseAcc) : IO Unit := do
   let line ← h.getLine
@@ -191,6 +199,7 @@ partial def loop (modeArg : String) (h : IO.FS.Stream) (a : CaseAcc) : IO Unit :
     | some o => loop modeArg h { a with ops := a.ops.push o }
     | none => loop modeArg h { a with bad := some s!"op:{line.trimAscii.toString}" }
   | ["T", "ks", snap] => loop modeArg h { a with ks := a.ks.push snap }
+  | "T" :: "ps" :: tbl => loop modeArg h { a with ps := a.ps.push (" ".intercalate tbl) }
   | "T" :: ev =>
     loop modeArg h { a with impl := a.impl.push (" ".intercalate ev) }
   | ["END"] => do
